@@ -40,6 +40,7 @@ type Obl struct {
 	TimeS  float64
 	Model  string
 	File   string
+	part   bool // a conjunct of a split goal (never split again)
 }
 
 type VC struct {
@@ -63,6 +64,7 @@ type VC struct {
 	usedTrusted    map[string]bool
 	inlined        map[string]bool
 	callCount      map[string]int
+	localKinds     map[string]string // layout kind of local-variable state leaves
 	extraDecls     []string
 	valueSolver    string
 	noEngineAxioms bool      // value queries: drop the engine's quantified heap axioms (set after a failed attempt)
@@ -83,7 +85,7 @@ func (vc *VC) preambleFor(withMS bool) string {
 
 func (e *Engine) newVC(fn *ssa.Function, fc *FuncContract) *VC {
 	return &VC{e: e, fn: fn, fc: fc, short: e.shortName(fn.String()), sorts: map[string]string{},
-		oblNames: map[string]int{}, usedTrusted: map[string]bool{}, inlined: map[string]bool{}, callCount: map[string]int{}}
+		oblNames: map[string]int{}, usedTrusted: map[string]bool{}, inlined: map[string]bool{}, callCount: map[string]int{}, localKinds: map[string]string{}}
 }
 
 func (vc *VC) declare(name, sort string) {
@@ -113,6 +115,13 @@ func (vc *VC) freshVal(hint string, t types.Type) Val {
 }
 
 func (vc *VC) assume(reach, t *Term) {
+	if t != nil && t.Op == "and" {
+		// one assertion per conjunct: the context slicer and the solvers' quantifier profiles work per assertion
+		for _, a := range t.Args {
+			vc.assume(reach, a)
+		}
+		return
+	}
 	f := Imp(reach, t)
 	if f.String() == "true" {
 		return
@@ -373,6 +382,105 @@ func (vc *VC) script(o *Obl, withModel bool) string {
 	if withModel {
 		sb.WriteString("(get-model)\n")
 	}
+	return sb.String()
+}
+
+// families returns the heap / memory / map state-variable families (names without version suffix) mentioned in text.
+func (vc *VC) families(text string, fams []string, out map[string]bool) {
+	for _, f := range fams {
+		if out[f] {
+			continue
+		}
+		sn := smtName(f)
+		idx := 0
+		for {
+			k := strings.Index(text[idx:], sn)
+			if k < 0 {
+				break
+			}
+			end := idx + k + len(sn)
+			if end < len(text) {
+				c := text[end]
+				// the family name must be followed by a version suffix, not by more of a longer name
+				if c == '!' || c == '@' || (c == '.' && end+1 < len(text) && (text[end+1] == 'L' || text[end+1] == 'c')) {
+					out[f] = true
+					break
+				}
+			}
+			idx = end
+		}
+	}
+}
+
+// slicedScript drops quantified assumptions that speak only about state-variable families the goal does not mention.
+// Dropping assumptions is sound; a proof of the sliced query is a proof of the obligation.
+func (vc *VC) slicedScript(o *Obl) string {
+	var fams []string
+	for k := range vc.sorts {
+		if strings.HasPrefix(k, "sort:") {
+			n := k[5:]
+			if strings.HasPrefix(n, "H.") || strings.HasPrefix(n, "M.") || strings.HasPrefix(n, "MD.") || strings.HasPrefix(n, "MV.") {
+				fams = append(fams, n)
+			}
+		}
+	}
+	sort.Slice(fams, func(i, j int) bool { return len(fams[i]) > len(fams[j]) })
+	goalF := map[string]bool{}
+	vc.families(o.Goal.String(), fams, goalF)
+	// one round of closure through non-engine quantified assumptions (invariants, contracts) that touch the goal's families
+	cmds := vc.cmds[:o.CtxLen]
+	keep := make([]bool, len(cmds))
+	cone := map[string]bool{}
+	for f := range goalF {
+		cone[f] = true
+	}
+	for i, c := range cmds {
+		if !strings.Contains(c, "(forall ") {
+			keep[i] = true
+			continue
+		}
+		if strings.HasSuffix(c, ";E") {
+			continue
+		}
+		cf := map[string]bool{}
+		vc.families(c, fams, cf)
+		hit := len(cf) == 0
+		for f := range cf {
+			if goalF[f] {
+				hit = true
+			}
+		}
+		if hit {
+			keep[i] = true
+			for f := range cf {
+				cone[f] = true
+			}
+		}
+	}
+	for i, c := range cmds {
+		if keep[i] || !strings.HasSuffix(c, ";E") {
+			continue
+		}
+		cf := map[string]bool{}
+		vc.families(c, fams, cf)
+		hit := len(cf) == 0
+		for f := range cf {
+			if cone[f] {
+				hit = true
+			}
+		}
+		keep[i] = hit
+	}
+	var sb strings.Builder
+	sb.WriteString("; obligation " + o.Name + " (sliced)\n(set-logic ALL)\n")
+	sb.WriteString(vc.preambleFor(vc.usesMS(o.CtxLen, o.Goal)))
+	for i, c := range cmds {
+		if keep[i] {
+			sb.WriteString(c)
+			sb.WriteByte('\n')
+		}
+	}
+	sb.WriteString("(assert (not " + o.Goal.String() + "))\n(check-sat)\n")
 	return sb.String()
 }
 
